@@ -229,15 +229,25 @@ def inplace_cases(chk, n, salt):
     return out
 
 
-def impl_after_inplace(kind, fmt, v, w):
-    """dict like impl_roundtrip, for the object built from v, warmed, edited in place to w"""
+def impl_after_inplace(kind, fmt, v, w, decoded=False):
+    """dict like impl_roundtrip, for the object built from v (or decoded from v's encoding), warmed, edited in
+    place to w"""
     try:
         o = blocks.build(kind, fmt, v)
+        if decoded:
+            o, _ = blocks.impl_build(kind, fmt, blocks.impl_write(o))
         blocks.warm(o)
-        blocks.apply_inplace(kind, fmt, o, w)
     except Exception as e:
         return {"build_err": common.exc_info(e)}
-    r = {}
+    try:
+        blocks.apply_inplace(kind, fmt, o, w)
+    except ValueError as e:
+        if "read-only" in str(e):
+            return {"readonly": True}          # numpy marks some decoded arrays read-only: no in-place edit is possible
+        return {"build_err": common.exc_info(e)}
+    except Exception as e:
+        return {"build_err": common.exc_info(e)}
+    r = {"content": blocks.extract(kind, fmt, o)}          # what the object holds now (attributes and arrays, no encoder involved)
     try:
         r["nbytes"] = int(o.nBytes)
     except Exception as e:
@@ -254,36 +264,46 @@ def impl_after_inplace(kind, fmt, v, w):
 
 
 def check_inplace(chk, pid, n):
-    """the property pid (C01 / C02 / C05 / C06) on blocks reached by in-place edits; the model side is simply the
-    value w (values have no history)"""
+    """the property pid (C01 / C02 / C05 / C06) on blocks reached by in-place edits — of constructed blocks and of
+    blocks decoded from bytes; the model side is simply the value the object now holds (values have no history)"""
     cases = inplace_cases(chk, n, pid)
-    mres = model_eval([(k, f, w) for k, f, v, w in cases], want=("wfb", "enc", "size"))
-    for (kind, fmt, v, w), m in zip(cases, mres):
-        if not m["wfb"]:
-            raise RuntimeError("perturb produced an invalid block: " + blocks.describe(kind, fmt, w))
-        chk.note_case((kind, fmt, "edited in place", v, w), blocks.nontrivial(kind, w))
-        case = {"kind": kind, "fmt": fmt, "built_from": v, "edited_in_place_to": w}
-        i = impl_after_inplace(kind, fmt, v, w)
+    impl = []
+    for idx, (kind, fmt, v, w) in enumerate(cases):
+        decoded = (idx // len(blocks.KINDS)) % 2 == 1
+        impl.append((decoded, impl_after_inplace(kind, fmt, v, w, decoded)))
+    todo = [(c, d, i) for c, (d, i) in zip(cases, impl) if "content" in i]
+    mres = model_eval([(c[0], c[1], i["content"]) for c, d, i in todo], want=("wfb", "enc", "size"))
+    bym = {id(i): m for (c, d, i), m in zip(todo, mres)}
+    for (kind, fmt, v, w), (decoded, i) in zip(cases, impl):
+        origin = "decoded from bytes" if decoded else "constructed"
+        chk.note_case((kind, fmt, "edited in place", decoded, v, w), blocks.nontrivial(kind, w))
+        case = {"kind": kind, "fmt": fmt, "built_from": v, "origin": origin, "edited_in_place_towards": w}
         if "build_err" in i:
-            chk.violation("%s: a block cannot be edited in place: %s" % (kind, i["build_err"]), case, True)
+            chk.violation("%s (%s): a block cannot be edited in place: %s" % (kind, origin, i["build_err"]), case, True)
+            continue
+        cur = i["content"]
+        case["content_after_edit"] = cur
+        m = bym[id(i)]
+        if not m["wfb"]:
+            chk.count("edited in place: content outside the valid blocks (skipped)")
             continue
         if i["enc"] is None:
-            chk.violation("%s: a block edited in place cannot be encoded: %s" % (kind, i["enc_exc"]), case, True)
+            chk.violation("%s (%s): a block edited in place cannot be encoded: %s" % (kind, origin, i["enc_exc"]), case, True)
             continue
         if pid == "C02":
             if not (i["nbytes"] == len(i["enc"]) == i.get("consumed")):
-                chk.violation("%s fmt=%d after an in-place edit: nBytes=%r, bytes written=%d, bytes consumed=%r" %
-                              (kind, fmt, i["nbytes"], len(i["enc"]), i.get("consumed")), case, True)
+                chk.violation("%s fmt=%d (%s) after an in-place edit: nBytes=%r, bytes written=%d, bytes consumed=%r" %
+                              (kind, fmt, origin, i["nbytes"], len(i["enc"]), i.get("consumed")), case, True)
             elif m["size"] != len(i["enc"]):
                 chk.violation("%s: size differs from the model after an in-place edit" % kind, dict(case, correspondence="Fmt.size"), False)
         elif pid == "C06":
             if i["enc"] != m["enc"]:
                 k = next((j for j, (x, y) in enumerate(zip(i["enc"], m["enc"])) if x != y), min(len(i["enc"]), len(m["enc"])))
-                chk.violation("%s fmt=%d after an in-place edit: bytes written differ from the layout-driven encoder of the "
-                              "block's current content at offset %d (%d vs %d bytes)" % (kind, fmt, k, len(i["enc"]), len(m["enc"])), case, True)
+                chk.violation("%s fmt=%d (%s) after an in-place edit: bytes written differ from the layout-driven encoder of the "
+                              "block's current content at offset %d (%d vs %d bytes)" % (kind, fmt, origin, k, len(i["enc"]), len(m["enc"])), case, True)
         else:   # C01 / C05: what comes back is the current content
             if i.get("dec") is None:
-                chk.violation("%s after an in-place edit: own encoding cannot be decoded: %s" % (kind, i.get("dec_exc")), case, True)
-            elif i["dec"] != w:
-                chk.violation("%s fmt=%d after an in-place edit: decode(encode(b)) differs from the block's current content at %s" %
-                              (kind, fmt, fdiff(i["dec"], w)), case, True)
+                chk.violation("%s (%s) after an in-place edit: own encoding cannot be decoded: %s" % (kind, origin, i.get("dec_exc")), case, True)
+            elif i["dec"] != cur:
+                chk.violation("%s fmt=%d (%s) after an in-place edit: decode(encode(b)) differs from the block's current content at %s" %
+                              (kind, fmt, origin, fdiff(i["dec"], cur)), case, True)
